@@ -30,7 +30,10 @@ def audited():
     if not os.path.exists(p):
         return {}
     with open(p) as fh:
-        return {e["key"]: e for e in json.load(fh)["sites"]}
+        j = json.load(fh)
+    d = {e["key"]: e for e in j["sites"]}
+    d["\0classes"] = [(re.compile(c["pattern"]), c) for c in j.get("classes", [])]
+    return d
 
 
 def describe_operand(fz, op, depth=0):
@@ -457,6 +460,11 @@ def run_scope(chk, rule, prog, fids, what, floor=1, kinds=None):
                     chk.sample({"site": o.where, "obligation": o.kind, "operands": o.desc, "discharged_by": "zone analysis", "needs": o.need})
                 continue
             e = aud.get(o.key)
+            if e is None:
+                for rx, c in aud.get("\0classes", []):
+                    if rx.fullmatch(o.key):
+                        e = c
+                        break
             if e is not None and e.get("requires"):
                 missing = []
                 for callee in e["requires"].get("dominating_calls", []):
